@@ -30,7 +30,7 @@ def run (_tag : String) (kv : KV) : String :=
   else if point = "during-dispense" ∨ (point = "broker-plugin-accept" ∧ !grpc) then
     s!"start=ok client=ok dispense={showRes (afterCrash P .dispense)} {ex} ping={showRes (afterCrash P .ping)} kill={showRes (afterCrash P .kill)}"
   else
-    let mid := if point = "in-call-exit" ∨ point = "in-call-kill" then s!" call={showRes (afterCrash P .call)}"
+    let mid := if point = "in-call-exit" ∨ point = "in-call-kill" ∨ point = "mux-knock-unanswered" then s!" call={showRes (afterCrash P .call)}"
       else if point = "broker-plugin-accept" ∨ point = "broker-plugin-dial" then s!" callback={showRes (afterCrash P .brokerDial)}"
       else if point = "during-stdio" then " emit=any" else ""
     s!"start=ok client=ok{mid} {ex}{ctx} {after}"
